@@ -845,7 +845,30 @@ fn apply_contract(cx: &mut Ctx, f: &FnInfo, contract: Option<&Value>, mutself: b
             let occ = i.get("occurrence").and_then(|v| v.as_u64());
             let expect = i.get("of").and_then(|v| v.as_u64()).unwrap_or(1) as usize;
             let mut fuzzy_at: Option<usize> = None;
-            if n != expect || anchor.is_empty() || occ.map(|o| o as usize >= n).unwrap_or(false) {
+            if n != expect && n >= 1 && expect > 1 && pos != "replace" {
+                // `"text"@k/n` and the number of occurrences changed: take the occurrence nearest to the pinned line
+                if let Some(hl) = i.get("hint_line").and_then(|v| v.as_i64()) {
+                    let fn_line = cx.line_of(bs) as i64;
+                    let mut cand: Option<(i64, usize)> = None;
+                    for (o, _) in body.match_indices(anchor) {
+                        let rel = cx.line_of(bs + o) as i64 - fn_line;
+                        let d = (rel - hl).abs();
+                        if cand.map(|c| d < c.0).unwrap_or(true) {
+                            cand = Some((d, bs + o));
+                        }
+                    }
+                    if let Some((d, o)) = cand {
+                        if d <= 2 {
+                            fuzzy_at = Some(o);
+                        }
+                    }
+                }
+                if fuzzy_at.is_none() && i.get("droppable").and_then(|v| v.as_bool()).unwrap_or(false) {
+                    cx.push(bs, bs, "", "R1.droppedhint");
+                    continue;
+                }
+            }
+            if fuzzy_at.is_none() && (n != expect || anchor.is_empty() || occ.map(|o| o as usize >= n).unwrap_or(false)) {
                 // The anchored statement was edited: fall back to the single most similar line of the
                 // body (first line of the anchor), so that an edit of an anchored statement is still
                 // *decided* instead of being reported as a lost anchor. Counted as R1.fuzzyanchor.
